@@ -1,3 +1,6 @@
+Extract/C01x.vo Extract/C01x.glob Extract/C01x.v.beautified Extract/C01x.required_vo: Extract/C01x.v Model/StCore.vo Model/StTyping.vo
+Extract/C01x.vio: Extract/C01x.v Model/StCore.vio Model/StTyping.vio
+Extract/C01x.vos Extract/C01x.vok Extract/C01x.required_vos: Extract/C01x.v Model/StCore.vos Model/StTyping.vos
 Extract/C04x.vo Extract/C04x.glob Extract/C04x.v.beautified Extract/C04x.required_vo: Extract/C04x.v Model/Fb.vo Spec/C04.vo Spec/C04Judge.vo
 Extract/C04x.vio: Extract/C04x.v Model/Fb.vio Spec/C04.vio Spec/C04Judge.vio
 Extract/C04x.vos Extract/C04x.vok Extract/C04x.required_vos: Extract/C04x.v Model/Fb.vos Spec/C04.vos Spec/C04Judge.vos
@@ -40,6 +43,12 @@ Model/RetainCodec.vos Model/RetainCodec.vok Model/RetainCodec.required_vos: Mode
 Model/Sched.vo Model/Sched.glob Model/Sched.v.beautified Model/Sched.required_vo: Model/Sched.v 
 Model/Sched.vio: Model/Sched.v 
 Model/Sched.vos Model/Sched.vok Model/Sched.required_vos: Model/Sched.v 
+Model/StCore.vo Model/StCore.glob Model/StCore.v.beautified Model/StCore.required_vo: Model/StCore.v 
+Model/StCore.vio: Model/StCore.v 
+Model/StCore.vos Model/StCore.vok Model/StCore.required_vos: Model/StCore.v 
+Model/StTyping.vo Model/StTyping.glob Model/StTyping.v.beautified Model/StTyping.required_vo: Model/StTyping.v Model/StCore.vo
+Model/StTyping.vio: Model/StTyping.v Model/StCore.vio
+Model/StTyping.vos Model/StTyping.vok Model/StTyping.required_vos: Model/StTyping.v Model/StCore.vos
 Proofs/C04Proofs.vo Proofs/C04Proofs.glob Proofs/C04Proofs.v.beautified Proofs/C04Proofs.required_vo: Proofs/C04Proofs.v Model/Fb.vo Spec/C04.vo
 Proofs/C04Proofs.vio: Proofs/C04Proofs.v Model/Fb.vio Spec/C04.vio
 Proofs/C04Proofs.vos Proofs/C04Proofs.vok Proofs/C04Proofs.required_vos: Proofs/C04Proofs.v Model/Fb.vos Spec/C04.vos
@@ -61,6 +70,15 @@ Proofs/CycleProofs.vos Proofs/CycleProofs.vok Proofs/CycleProofs.required_vos: P
 Proofs/IoProofs.vo Proofs/IoProofs.glob Proofs/IoProofs.v.beautified Proofs/IoProofs.required_vo: Proofs/IoProofs.v Model/Io.vo
 Proofs/IoProofs.vio: Proofs/IoProofs.v Model/Io.vio
 Proofs/IoProofs.vos Proofs/IoProofs.vok Proofs/IoProofs.required_vos: Proofs/IoProofs.v Model/Io.vos
+Proofs/StProofs.vo Proofs/StProofs.glob Proofs/StProofs.v.beautified Proofs/StProofs.required_vo: Proofs/StProofs.v Model/StCore.vo Model/StTyping.vo
+Proofs/StProofs.vio: Proofs/StProofs.v Model/StCore.vio Model/StTyping.vio
+Proofs/StProofs.vos Proofs/StProofs.vok Proofs/StProofs.required_vos: Proofs/StProofs.v Model/StCore.vos Model/StTyping.vos
+Properties/C01.vo Properties/C01.glob Properties/C01.v.beautified Properties/C01.required_vo: Properties/C01.v Model/StCore.vo Model/StTyping.vo Proofs/StProofs.vo
+Properties/C01.vio: Properties/C01.v Model/StCore.vio Model/StTyping.vio Proofs/StProofs.vio
+Properties/C01.vos Properties/C01.vok Properties/C01.required_vos: Properties/C01.v Model/StCore.vos Model/StTyping.vos Proofs/StProofs.vos
+Properties/C03.vo Properties/C03.glob Properties/C03.v.beautified Properties/C03.required_vo: Properties/C03.v Model/StCore.vo Model/StTyping.vo Proofs/StProofs.vo
+Properties/C03.vio: Properties/C03.v Model/StCore.vio Model/StTyping.vio Proofs/StProofs.vio
+Properties/C03.vos Properties/C03.vok Properties/C03.required_vos: Properties/C03.v Model/StCore.vos Model/StTyping.vos Proofs/StProofs.vos
 Properties/C04.vo Properties/C04.glob Properties/C04.v.beautified Properties/C04.required_vo: Properties/C04.v Model/Fb.vo Spec/C04.vo Proofs/C04Proofs.vo
 Properties/C04.vio: Properties/C04.v Model/Fb.vio Spec/C04.vio Proofs/C04Proofs.vio
 Properties/C04.vos Properties/C04.vok Properties/C04.required_vos: Properties/C04.v Model/Fb.vos Spec/C04.vos Proofs/C04Proofs.vos
